@@ -54,7 +54,6 @@ class Harness(object):
         kw = dict(retries=0, timeout=3)
         if broadcast:
             kw['broadcast_enable'] = True
-        self.client = clients.make_client(kind, self.line, **kw)
         me_ = self
 
         class LoggedLock(sched.SLock):
@@ -66,7 +65,15 @@ class Harness(object):
 
             def __exit__(self_, *a):
                 self_.release()
-        self.client.transaction._transaction_lock = LoggedLock(s, 'lock')
+        # every lock the transaction manager creates is an instrumented one (so that a blocked thread is
+        # 'not enabled' for the scheduler instead of a blocked OS thread)
+        import pymodbus.transaction as ptx
+        self._saved_rlock = ptx.RLock
+        ptx.RLock = lambda *a, **k: LoggedLock(s, 'lock')
+        try:
+            self.client = clients.make_client(kind, self.line, **kw)
+        finally:
+            pass
         sock = self.client.socket
         me = self
 
@@ -123,13 +130,15 @@ class Harness(object):
                     self.log.append((t, 'end'))
                     self.results[t].append(('broadcast', r))
                     continue
-                req = bind.to_obj(dict(m, unit=UNIT))
+                req = bind.to_obj(dict(m, unit=UNIT + t))         # every caller talks to its own unit
                 r = self.client.execute(req)
                 self.log.append((t, 'end'))
                 self.results[t].append((m, r))
         return run
 
     def close(self):
+        import pymodbus.transaction as ptx
+        ptx.RLock = self._saved_rlock
         self.patch.__exit__(None, None, None)
 
 
